@@ -7,6 +7,18 @@ ROOT = os.path.dirname(os.path.dirname(os.path.abspath(__file__)))
 
 # id -> (technique, level text, level note, design ref)
 CHECKS = {
+    "C08": ("Lean 4 theorems over a hand model of the classic (de)serialiser (parametric in two facts re-read from the sources every run) against a clvmr spec model, plus an exhaustive differential run",
+            "Proved for every configuration and all inputs: the encoder emits exactly clvmr's bytes (atoms < 2^34 bytes); the decoder that drops sub-read errors equals the error-propagating reading; it stops within 3|bs|+2 steps. Proved for the repaired configuration: decode after encode is the identity, decode = clvmr's on every input, every proper prefix is rejected. For the code as found the same under an explicit exclusion of 4+-byte length prefixes, with decide witnesses that the exclusion is necessary (get_u32 little-endian; 7-byte prefixes accepted). The two configuration facts are re-extracted from /repo on each run (translator) and the model is tied to the code by all inputs of length <= 2 (<= 3 thorough), every prefix width, truncation at every offset, bit flips, 1 MiB+ atoms; the clvmr oracle runs on the implementation alone.",
+            "Lean kernel + the three standard axioms; stream buffer management and to_sexp_type are abstracted; the 5-byte length class is run on the implementation only; two open findings with fix diffs.",
+            "DESIGN.md §4 C08"),
+    "C20": ("exhaustive kernel evaluation (decide) over operator tables regenerated from /repo and the locked clvmr sources on every run, lifted to all names, atoms and versions; runtime table dump; one-operator programs",
+            "Proved over the regenerated tables: name->opcode and opcode->name mutually inverse per version, versions only add names, modern prims = latest classic table, named <=> implemented for all 256 one-byte opcodes plus the 4-byte ones per version, hard-wired operators agree. The stepping-evaluator and disassembler gaps are characterised exactly with partial theorems and decide witnesses. The translator is tied to the runtime maps (keyword_from_atom, keyword_to_atom, prims, prim_map), and the oracle compiles and runs each operator through both compilers, every runner version, the stepping evaluator and compile-time evaluation against clvmr.",
+            "Finite domain, so exhaustive evaluation is a proof; the purpose-built extractor errors on unrecognised source shapes; operator semantics are clvmr's; two open findings.",
+            "DESIGN.md §4 C20"),
+    "C09": ("Lean 4 theorems over hand models of both printers and both readers (atom, token-stream and tree level) plus exhaustive differential run and re-read oracle",
+            "Kernel-checked for every CLVM value and every operator-set version, no size bounds: the classic disassembled text assembles to the identical value unless an atom is printed as a quoted string containing a backslash (the listed defect; the hypothesis is shown exact, witnessed by decide, and removed for the proposed one-line repair). In the fixed integer mode the modern print of the converted value is read by the modern reader as one form with the identical value and by the classic assembler to the identical value; the same for any compilation result without bare symbol atoms, so the CLI text denotes the library bytes (decide witness for the bareword case). The writer stack machine is proved equal to the recursive writer. Models and real code are run on every atom of length 0..2 (0..3 thorough) in seven positions x versions 0-3, special-character strings, keyword names, look-alikes, random trees, rich spellings, mutated text for both readers, and compiler outputs for literal-constant programs; printed text and re-read bytes are compared.",
+            "Text is byte lists; UTF-8 validity and allocator limits are not modelled; keyword tables in the text model are hand-copied and compared with the runtime tables every run; legacy integer mode excluded as the property states; two open findings.",
+            "DESIGN.md §4 C09"),
     "C04": ("Lean 4 proof over a rule-by-rule mirror of the classic optimiser (optimize_sexp, NodePath, pattern matcher) + output-equality correspondence + consensus oracle",
             "Every rewrite rule, sub_args, the path arithmetic (lookup_compose, the compose_paths loop, as_path/new) and the fixpoint driver are proved meaning-preserving and non-rejecting for arbitrary CLVM, any operator table with first/rest/cons, and all path byte patterns, on runs that avoid six decidable defect situations (strict-mode flags); each excluded situation is kernel-witnessed by a decide counterexample and replayed on the real code as an open finding: pair-headed forms, nil or top-bit path atoms under substitution, sign-extended and >=4-byte top-bit atoms in path_optimizer (get_u32 little-endian), very long path atoms (stack overflow). Memo transparency is proved; termination is not (fuel-bounded model). The model equals optimize_sexp / run_optimizer on 352k cases (quick: all trees <= 9 nodes over a reduced alphabet, grammar-exhaustive expressions, path atoms of 0..9 bytes in every class, f/r chains up to 80, re-rooting) and 1.47M (thorough); the oracle compares consensus values before and after optimisation.",
             "Operators are a parameter; the full unconditioned statement is false on the unchanged tree (six open findings with proposed fix diffs); model<->code tie is differential.",
